@@ -302,3 +302,15 @@ package http1
 //@   assert before decConnsCount: dialDone && dialFailed && slotBack == 0
 //@   assert before releaseConn: dialDone && !dialFailed && !dcDelivered
 //@   top-ensures dialDone && (dialFailed ==> slotBack == 1) && (!dialFailed ==> slotBack == 0 && (dcDelivered || dcReleased))
+
+// C09: the request context is reset before it goes back into the context pool.
+//@ ghost var ctxReset bool
+//@ func Server.putRequestContext(s, ctx)
+//@   props C09
+//@   abstract
+//@   noinline
+//@   modifies ctxReset
+//@   ghostset-at-entry ctxReset = false
+//@   ghostset after RequestContext.Reset: ctxReset = (arg0 == ctx)
+//@   assert before Put: ctxReset && arg1 == ctx
+
